@@ -7,10 +7,17 @@ import (
 	"encoding/hex"
 	"encoding/json"
 	"errors"
+	"bytes"
+	"context"
 	"fmt"
+	"os"
+	"os/exec"
 	"sort"
 	"strings"
+	"sync"
+	"time"
 
+	"rare/pkg/matchers"
 	"rare/pkg/matchers/dissect"
 	. "verifh/lib"
 )
@@ -19,6 +26,8 @@ type c12In struct {
 	Mode    int      `json:"mode"` // 0 case-sensitive only, 1 ignore-case only, 2 both
 	Pattern string   `json:"pattern_hex"`
 	Lines   []string `json:"lines_hex"`
+	// concurrent case: one line list per instance (all instances from one factory); Lines is unused
+	Workers [][]string `json:"workers_lines_hex,omitempty"`
 	// readable copies (not used by replay)
 	PatternText string `json:"pattern_text,omitempty"`
 }
@@ -39,6 +48,16 @@ type c12Outcome struct {
 	// results whose re-read value differs from the value at return (must be 0)
 	Altered      int `json:"results_altered_after_return"`
 	FirstAltered int `json:"first_altered_index,omitempty"`
+	// calls that panicked (recovered; such a call's result is recorded as [-1])
+	CallPanics int    `json:"calls_panicked,omitempty"`
+	PanicText  string `json:"first_call_panic,omitempty"`
+}
+
+// one instance of a concurrent case: used interleaved with the others in one goroutine, and
+// (a fresh instance) in its own goroutine at the same time as the others
+type c12WorkerOut struct {
+	Inter c12Out `json:"interleaved"`
+	Par   c12Out `json:"parallel"`
 }
 
 type c12Out struct {
@@ -46,11 +65,33 @@ type c12Out struct {
 	IC c12Outcome `json:"ignore_case"`
 }
 
-func c12RunMode(pat string, lines [][]byte, ic bool) (out c12Outcome) {
+var c12Panicked = []int{-1} // recorded result of a call that panicked (never a valid result)
+
+// FindSubmatchIndex under recover: a panic is the call's outcome, not the harness's
+func matchSafe(m matchers.Matcher, line []byte) (r []int, msg string) {
+	defer func() {
+		if e := recover(); e != nil {
+			r, msg = nil, "panic: "+fmt.Sprint(e)
+		}
+	}()
+	return m.FindSubmatchIndex(line), ""
+}
+
+func newInstanceSafe(f matchers.Factory) (m matchers.Matcher, msg string) {
+	defer func() {
+		if e := recover(); e != nil {
+			m, msg = nil, "panic: "+fmt.Sprint(e)
+		}
+	}()
+	return f.CreateInstance(), ""
+}
+
+// compile once; the factory is what cmd/helpers hands to the extractor (matchers.ToFactory)
+func c12Compile(pat string, ic bool) (f matchers.Factory, out c12Outcome) {
 	out.Run = true
 	defer func() {
 		if e := recover(); e != nil {
-			out = c12Outcome{Run: true, Panic: fmt.Sprint(e)}
+			f, out = nil, c12Outcome{Run: true, Panic: fmt.Sprint(e)}
 		}
 	}()
 	d, err := dissect.CompileEx(pat, ic)
@@ -65,41 +106,281 @@ func c12RunMode(pat string, lines [][]byte, ic bool) (out c12Outcome) {
 		default:
 			out.Err = 7
 		}
+		return nil, out
+	}
+	return matchers.ToFactory(d), out
+}
+
+func c12Names(m matchers.Matcher) (ns []c12Name) {
+	for k, v := range m.SubexpNameTable() {
+		ns = append(ns, c12Name{hex.EncodeToString([]byte(k)), v})
+	}
+	sort.Slice(ns, func(i, j int) bool {
+		if ns[i].Idx != ns[j].Idx {
+			return ns[i].Idx < ns[j].Idx
+		}
+		return ns[i].Name < ns[j].Name
+	})
+	return
+}
+
+func sameInts(a, b []int) bool {
+	if (a == nil) != (b == nil) || len(a) != len(b) {
+		return false
+	}
+	for i := range a {
+		if a[i] != b[i] {
+			return false
+		}
+	}
+	return true
+}
+
+// one instance's bookkeeping: every returned slice is kept and re-read at the end
+type c12Held struct {
+	out  c12Outcome
+	held [][]int
+}
+
+func newHeld(n int) *c12Held {
+	h := &c12Held{held: make([][]int, n)}
+	h.out.Run = true
+	h.out.Ret = make([][]int, n)
+	h.out.End = make([][]int, n)
+	return h
+}
+
+func (h *c12Held) call(m matchers.Matcher, i int, line []byte) {
+	r, msg := matchSafe(m, line)
+	if msg != "" {
+		if h.out.CallPanics == 0 {
+			h.out.PanicText = msg
+		}
+		h.out.CallPanics++
+		h.out.Ret[i] = c12Panicked
 		return
 	}
-	for k, v := range d.SubexpNameTable() {
-		out.Names = append(out.Names, c12Name{hex.EncodeToString([]byte(k)), v})
+	h.held[i] = r
+	if r != nil {
+		h.out.Ret[i] = append([]int{}, r...)
 	}
-	sort.Slice(out.Names, func(i, j int) bool {
-		if out.Names[i].Idx != out.Names[j].Idx {
-			return out.Names[i].Idx < out.Names[j].Idx
+}
+
+func (h *c12Held) reread() {
+	for i, r := range h.held {
+		if sameInts(h.out.Ret[i], c12Panicked) {
+			h.out.End[i] = c12Panicked
+			continue
 		}
-		return out.Names[i].Name < out.Names[j].Name
-	})
-	inst := d.CreateInstance()
-	held := make([][]int, len(lines))
-	out.Ret = make([][]int, len(lines))
-	out.End = make([][]int, len(lines))
-	for i, l := range lines {
-		r := inst.FindSubmatchIndex(l)
-		held[i] = r
 		if r != nil {
-			out.Ret[i] = append([]int{}, r...)
-		}
-	}
-	// re-read every earlier result after all later calls
-	for i, r := range held {
-		if r != nil {
-			out.End[i] = append([]int{}, r...)
-			if fmt.Sprint(out.End[i]) != fmt.Sprint(out.Ret[i]) {
-				if out.Altered == 0 {
-					out.FirstAltered = i
+			h.out.End[i] = append([]int{}, r...)
+			if !sameInts(h.out.End[i], h.out.Ret[i]) {
+				if h.out.Altered == 0 {
+					h.out.FirstAltered = i
 				}
-				out.Altered++
+				h.out.Altered++
 			}
 		}
 	}
+}
+
+// SEQUENCE: one Dissect compiled once, ONE instance, every line in order, every returned slice
+// re-read after the last call
+func c12RunMode(pat string, lines [][]byte, ic bool) (out c12Outcome) {
+	f, out := c12Compile(pat, ic)
+	if f == nil {
+		return out
+	}
+	inst, msg := newInstanceSafe(f)
+	if inst == nil {
+		return c12Outcome{Run: true, Panic: msg}
+	}
+	h := newHeld(len(lines))
+	h.out.Names = c12Names(inst)
+	for i, l := range lines {
+		h.call(inst, i, l)
+	}
+	h.reread()
+	return h.out
+}
+
+// CONCURRENT: one Dissect compiled once, one factory, one instance per worker.
+// Phase 1 (deterministic): the instances are used interleaved (round-robin) in one goroutine.
+// Phase 2: a fresh instance per goroutine (created inside it, as extractor.asyncWorker does), all
+// started together, each matching its own lines for several rounds. Reported per line: the round-0
+// result, unless some round returned (or some slice re-read as) something else - then that value.
+func c12RunWorkersMode(pat string, workers [][][]byte, ic bool) (inter, par []c12Outcome) {
+	W := len(workers)
+	inter, par = make([]c12Outcome, W), make([]c12Outcome, W)
+	f, out := c12Compile(pat, ic)
+	if f == nil {
+		for k := range workers {
+			inter[k], par[k] = out, out
+		}
+		return
+	}
+	// phase 1
+	insts := make([]matchers.Matcher, W)
+	hs := make([]*c12Held, W)
+	maxLen := 0
+	for k := range workers {
+		var msg string
+		insts[k], msg = newInstanceSafe(f)
+		hs[k] = newHeld(len(workers[k]))
+		if insts[k] == nil {
+			hs[k].out = c12Outcome{Run: true, Panic: msg}
+			continue
+		}
+		hs[k].out.Names = c12Names(insts[k])
+		if len(workers[k]) > maxLen {
+			maxLen = len(workers[k])
+		}
+	}
+	for j := 0; j < maxLen; j++ {
+		for k := range workers {
+			if insts[k] != nil && j < len(workers[k]) {
+				hs[k].call(insts[k], j, workers[k][j])
+			}
+		}
+	}
+	for k := range workers {
+		if insts[k] != nil {
+			hs[k].reread()
+		}
+		inter[k] = hs[k].out
+	}
+	// phase 2
+	start := make(chan struct{})
+	var wg sync.WaitGroup
+	for k := range workers {
+		wg.Add(1)
+		go func(k int) {
+			defer wg.Done()
+			defer func() { // anything outside the guarded calls
+				if e := recover(); e != nil {
+					par[k] = c12Outcome{Run: true, Panic: fmt.Sprint(e)}
+				}
+			}()
+			lines := workers[k]
+			<-start
+			inst, msg := newInstanceSafe(f)
+			if inst == nil {
+				par[k] = c12Outcome{Run: true, Panic: msg}
+				return
+			}
+			rounds := 1
+			if len(lines) > 0 {
+				rounds = 1 + 1500/len(lines)
+			}
+			first := newHeld(len(lines))
+			first.out.Names = c12Names(inst)
+			var later []*c12Held
+			for rd := 0; rd < rounds; rd++ {
+				h := first
+				if rd > 0 {
+					h = newHeld(len(lines))
+					later = append(later, h)
+				}
+				for i, l := range lines {
+					h.call(inst, i, l)
+				}
+			}
+			first.reread()
+			res := first.out
+			for _, h := range later {
+				h.reread()
+				for i := range lines {
+					if !sameInts(h.out.Ret[i], first.out.Ret[i]) && sameInts(res.Ret[i], first.out.Ret[i]) {
+						res.Ret = append([][]int{}, res.Ret...)
+						res.Ret[i] = h.out.Ret[i]
+						if res.Ret[i] == nil {
+							res.Ret[i] = []int{-2} // a later round missed where round 0 matched
+						}
+					}
+					if !sameInts(h.out.End[i], first.out.End[i]) && sameInts(res.End[i], first.out.End[i]) {
+						res.End = append([][]int{}, res.End...)
+						res.End[i] = h.out.End[i]
+						if res.End[i] == nil {
+							res.End[i] = []int{-2}
+						}
+					}
+				}
+				res.Altered += h.out.Altered
+				res.CallPanics += h.out.CallPanics
+				if res.PanicText == "" {
+					res.PanicText = h.out.PanicText
+				}
+			}
+			par[k] = res
+		}(k)
+	}
+	close(start)
+	wg.Wait()
 	return
+}
+
+// The concurrent runs happen in a child process (this binary, mode "c12-workers"): instances that
+// wrongly share state can corrupt memory under a race, which ends in a fatal runtime error that no
+// recover() catches. A child that dies is recorded as the outcome "did not complete" of every
+// instance of the case; the harness itself goes on.
+func c12RunWorkers(in c12In) []c12WorkerOut {
+	crashed := func(msg string) []c12WorkerOut {
+		outs := make([]c12WorkerOut, len(in.Workers))
+		p := c12Outcome{Run: true, Panic: msg}
+		for k := range outs {
+			if in.Mode != 1 {
+				outs[k].Inter.CS, outs[k].Par.CS = p, p
+			}
+			if in.Mode != 0 {
+				outs[k].Inter.IC, outs[k].Par.IC = p, p
+			}
+		}
+		return outs
+	}
+	inb, _ := json.Marshal(in)
+	ctx, cancel := context.WithTimeout(context.Background(), 60*time.Second)
+	defer cancel()
+	cmd := exec.CommandContext(ctx, os.Args[0], "c12-workers")
+	cmd.Stdin = bytes.NewReader(inb)
+	var stdout, stderr bytes.Buffer
+	cmd.Stdout, cmd.Stderr = &stdout, &stderr
+	if err := cmd.Run(); err != nil {
+		first := strings.SplitN(strings.TrimSpace(stderr.String()), "\n", 2)[0]
+		if len(first) > 200 {
+			first = first[:200]
+		}
+		return crashed(fmt.Sprintf("concurrent run died (%v): %s", err, first))
+	}
+	var outs []c12WorkerOut
+	if err := json.Unmarshal(stdout.Bytes(), &outs); err != nil || len(outs) != len(in.Workers) {
+		return crashed("concurrent run produced no result")
+	}
+	return outs
+}
+
+func c12RunWorkersDirect(in c12In) []c12WorkerOut {
+	pat, _ := hex.DecodeString(in.Pattern)
+	workers := make([][][]byte, len(in.Workers))
+	for k, ls := range in.Workers {
+		workers[k] = make([][]byte, len(ls))
+		for i, l := range ls {
+			workers[k][i], _ = hex.DecodeString(l)
+		}
+	}
+	outs := make([]c12WorkerOut, len(workers))
+	if in.Mode != 1 {
+		inter, par := c12RunWorkersMode(string(pat), workers, false)
+		for k := range outs {
+			outs[k].Inter.CS, outs[k].Par.CS = inter[k], par[k]
+		}
+	}
+	if in.Mode != 0 {
+		inter, par := c12RunWorkersMode(string(pat), workers, true)
+		for k := range outs {
+			outs[k].Inter.IC, outs[k].Par.IC = inter[k], par[k]
+		}
+	}
+	return outs
 }
 
 func c12Run(in c12In) c12Out {
@@ -283,13 +564,46 @@ func nonASCII(s string) bool {
 }
 
 func c12Case(in c12In) Case {
-	out := c12Run(in)
 	patb, _ := hex.DecodeString(in.Pattern)
 	pat := string(patb)
-	coq := fmt.Sprintf("c %d \"%s\" %s %s %s", in.Mode, in.Pattern, q(in.Lines), coqOutcome(out.CS), coqOutcome(out.IC))
-	if len(in.Lines) > 500 {
-		if cc, ok := coqCompact(in, out); ok {
-			coq = cc
+	var out c12Out
+	var coq string
+	var implDesc any
+	lines := in.Lines
+	if len(in.Workers) > 0 {
+		// concurrent case: a group of runs, two per instance; for the tags, all workers flattened
+		wouts := c12RunWorkers(in)
+		var items []string
+		lines = nil
+		merge := func(dst *c12Outcome, src c12Outcome) {
+			if !dst.Run {
+				*dst = src
+				dst.Ret = append([][]int{}, src.Ret...)
+				return
+			}
+			dst.Ret = append(dst.Ret, src.Ret...)
+			if dst.Panic == "" {
+				dst.Panic = src.Panic
+			}
+			dst.CallPanics += src.CallPanics
+		}
+		for k, wo := range wouts {
+			for _, o := range []c12Out{wo.Inter, wo.Par} {
+				items = append(items, fmt.Sprintf("one %d \"%s\" %s %s %s", in.Mode, in.Pattern, q(in.Workers[k]), coqOutcome(o.CS), coqOutcome(o.IC)))
+			}
+			lines = append(lines, in.Workers[k]...)
+			merge(&out.CS, wo.Inter.CS)
+			merge(&out.IC, wo.Inter.IC)
+		}
+		coq = "cG " + CoqList(items)
+		implDesc = wouts
+	} else {
+		out = c12Run(in)
+		coq = fmt.Sprintf("c %d \"%s\" %s %s %s", in.Mode, in.Pattern, q(in.Lines), coqOutcome(out.CS), coqOutcome(out.IC))
+		if len(in.Lines) > 500 {
+			if cc, ok := coqCompact(in, out); ok {
+				coq = cc
+			}
 		}
 	}
 
@@ -347,8 +661,13 @@ func c12Case(in c12In) Case {
 	case 3:
 		tags = append(tags, "err=conflict")
 	}
-	if ref.Panic != "" {
+	if ref.Panic != "" || out.CS.CallPanics+out.IC.CallPanics > 0 {
 		tags = append(tags, "impl-panic")
+	}
+	if len(in.Workers) > 0 {
+		tags = append(tags, "concurrent-instances", fmt.Sprintf("workers=%d", len(in.Workers)))
+	} else if len(in.Lines) >= 8 && len(in.Lines) < 3000 {
+		tags = append(tags, "sequence-8..60")
 	}
 	matched, missed, icAdds := 0, 0, 0
 	for i := range ref.Ret {
@@ -370,12 +689,12 @@ func c12Case(in c12In) Case {
 	if icAdds > 0 {
 		tags = append(tags, "ignore-case-adds-match")
 	}
-	if len(in.Lines) >= 3000 {
+	if len(lines) >= 3000 {
 		tags = append(tags, "sequence>=3000(pool refills)")
 	}
 	// searching restarts: a delimiter occurs more than once in a line
 	restart := false
-	for _, lh := range in.Lines[:min(len(in.Lines), 50)] {
+	for _, lh := range lines[:min(len(lines), 50)] {
 		lb, _ := hex.DecodeString(lh)
 		for _, u := range sh.untils {
 			if u != "" && strings.Count(string(lb), u) >= 2 {
@@ -390,19 +709,23 @@ func c12Case(in c12In) Case {
 		tags = append(tags, "literal-occurs-twice")
 	}
 	// keep descriptions of very long sequences readable: elide results in the JSON (the Coq term has all)
-	desc := out
-	if len(in.Lines) > 200 {
-		desc.CS = elide(desc.CS)
-		desc.IC = elide(desc.IC)
+	if implDesc == nil {
+		desc := out
+		if len(in.Lines) > 200 {
+			desc.CS = elide(desc.CS)
+			desc.IC = elide(desc.IC)
+		}
+		implDesc = desc
 	}
 	in.PatternText = fmt.Sprintf("%q", pat)
 	kb, _ := json.Marshal(struct {
 		M int
 		P string
 		L []string
-	}{in.Mode, in.Pattern, in.Lines})
+		W [][]string
+	}{in.Mode, in.Pattern, in.Lines, in.Workers})
 	nontrivial := ref.Err != 0 || (ntok >= 1 && matched > 0 && (ntok >= 2 || skip || sh.prefix != "" || restart))
-	return Case{Coq: coq, Desc: map[string]any{"input": in, "impl": desc}, Key: string(kb), Nontrivial: nontrivial, Tags: tags}
+	return Case{Coq: coq, Desc: map[string]any{"input": in, "impl": implDesc}, Key: string(kb), Nontrivial: nontrivial, Tags: tags}
 }
 
 func elide(o c12Outcome) c12Outcome {
@@ -630,6 +953,75 @@ func c12Line(r *Rng, p c12Pat) []byte {
 	return []byte(sb.String())
 }
 
+// a sequence with history for ONE instance: repeats of the previous / an earlier line, a line
+// shorter or longer than the previous one, same length with one byte changed, fresh lines
+func c12Sequence(r *Rng, p c12Pat, n int) [][]byte {
+	var ls [][]byte
+	for len(ls) < n {
+		var l []byte
+		x := r.Intn(11)
+		if len(ls) == 0 {
+			x = 0
+		}
+		var prev []byte
+		if len(ls) > 0 {
+			prev = ls[len(ls)-1]
+		}
+		switch {
+		case x < 4:
+			l = c12Line(r, p)
+		case x == 4:
+			l = append([]byte{}, prev...)
+		case x == 5:
+			l = append([]byte{}, ls[r.Intn(len(ls))]...)
+		case x == 6: // shorter: a proper prefix of the previous line
+			l = append([]byte{}, prev[:r.Intn(len(prev)+1)]...)
+		case x == 7: // longer: the previous line plus more
+			l = append(append([]byte{}, prev...), []byte(c12Lit(r, 1, 4))...)
+		case x == 8: // longer: the previous line twice
+			l = append(append([]byte{}, prev...), prev...)
+		case x == 9: // same length, one byte changed
+			l = append([]byte{}, prev...)
+			if len(l) > 0 {
+				i := r.Intn(len(l))
+				switch {
+				case l[i] >= 'a' && l[i] <= 'z':
+					l[i] -= 32
+				case l[i] >= 'A' && l[i] <= 'Z':
+					l[i] += 32
+				default:
+					l[i] = Pick(r, []byte{'a', 'b', ' ', ';', 'x'})
+				}
+			}
+		default: // shorter: the previous line without its first bytes
+			l = append([]byte{}, prev[min(len(prev), r.Intn(3)+1):]...)
+		}
+		ls = append(ls, l)
+	}
+	return ls
+}
+
+func hexAll(ls [][]byte) []string {
+	out := make([]string, len(ls))
+	for i, l := range ls {
+		out[i] = hex.EncodeToString(l)
+	}
+	return out
+}
+
+// several instances of one compiled pattern, each with its own lines
+func c12Concurrent(r *Rng, p c12Pat, pat string, mode int) Case {
+	w := r.Range(2, 4)
+	if r.Chance(1, 6) {
+		w = r.Range(5, 8)
+	}
+	ws := make([][]string, w)
+	for k := range ws {
+		ws[k] = hexAll(c12Sequence(r, p, r.Range(2, 12)))
+	}
+	return c12Case(c12In{Mode: mode, Pattern: hex.EncodeToString([]byte(pat)), Workers: ws})
+}
+
 func c12Mode(r *Rng) int {
 	switch x := r.Intn(10); {
 	case x < 6:
@@ -650,6 +1042,11 @@ func c12MkCase(mode int, pat string, lines [][]byte) Case {
 
 // >= 3000 lines on one instance (the pool refills after every 1024 successful prefix searches)
 func c12Long(r *Rng, tier string) Case {
+	// the model simulates the heap for every call (cost ~ calls x block size = calls x (2*named+2)*1024)
+	maxNamed := 1
+	if tier == "thorough" {
+		maxNamed = 2
+	}
 	var p c12Pat
 	for {
 		p = c12Pattern(r)
@@ -668,7 +1065,7 @@ func c12Long(r *Rng, tier string) Case {
 				seen[k] = true
 			}
 		}
-		if !s.errStop && !dup && len(s.keys) >= 1 && named <= 2 && !s.pctSplit && !nonASCII(p.text) {
+		if !s.errStop && !dup && len(s.keys) >= 1 && named <= maxNamed && !s.pctSplit && !nonASCII(p.text) {
 			break
 		}
 	}
@@ -714,6 +1111,14 @@ func c12Fixed() []Case {
 		mk(2, "ab%{x}ab%{y}", "aabab1ab2", "abab", "ab", "ABxaB", "aab"),
 		mk(2, "%{x}aa", "aaa", "aa", "a", "baAa"),
 		mk(2, "[%{x}]@%{y}Z", "[1]@2z", "{1}`2z", "[1]@2Z"),
+		// one instance, history: match, miss, shorter, longer, repeat
+		mk(2, "a=%{x};b=%{y} ", "a=1;b=2 ", "nothing", "a=1;b= ", "zz a=123456;b=7890 tail", "a=1;b=2 ", "A=1;B=2 ", "a=1;b=2 "),
+		// instances of one factory used at once
+		c12Case(c12In{Mode: 2, Pattern: hex.EncodeToString([]byte("k=%{k} v=%{v};")), Workers: [][]string{
+			hexAll([][]byte{[]byte("k=a v=1;"), []byte("k=bb v=22;"), []byte("nope")}),
+			hexAll([][]byte{[]byte("xx k=ccc v=333; tail"), []byte("K=d V=4;")}),
+			hexAll([][]byte{[]byte("k= v=;"), []byte("k=e v=5;"), []byte("k=e v=5;"), []byte("")}),
+		}}),
 	}
 }
 
@@ -744,24 +1149,43 @@ func c12Gen(r *Rng, n int, tier string) []Case {
 			}
 			pat = sb.String()
 		}
-		nl := r.Range(1, 6)
-		lines := make([][]byte, nl)
-		for i := range lines {
-			lines[i] = c12Line(r, p)
+		switch x := r.Intn(100); {
+		case x < 8:
+			cases = append(cases, c12Concurrent(r, p, pat, c12Mode(r)))
+		case x < 18:
+			cases = append(cases, c12MkCase(c12Mode(r), pat, c12Sequence(r, p, r.Range(8, 60))))
+		default:
+			nl := r.Range(1, 6)
+			lines := make([][]byte, nl)
+			for i := range lines {
+				lines[i] = c12Line(r, p)
+			}
+			cases = append(cases, c12MkCase(c12Mode(r), pat, lines))
 		}
-		cases = append(cases, c12MkCase(c12Mode(r), pat, lines))
 	}
 	return cases
 }
 
 func main() {
+	if len(os.Args) >= 2 && os.Args[1] == "c12-workers" { // child: one concurrent case, JSON in/out
+		var in c12In
+		if err := json.NewDecoder(os.Stdin).Decode(&in); err != nil {
+			fmt.Fprintln(os.Stderr, err)
+			os.Exit(2)
+		}
+		json.NewEncoder(os.Stdout).Encode(c12RunWorkersDirect(in))
+		return
+	}
 	Main(&Prop{
 		Name:   "C12",
 		Header: "From Coq Require Import List ZArith String.\nFrom RareV Require Import Corr.C12Case.\nImport ListNotations.\nOpen Scope Z_scope. Open Scope string_scope.\n",
 		Rule: "fixed cases (the package's test patterns, both findings' witnesses, the three compile errors) followed by seeded random: " +
 			"patterns = optional prefix literal + 0..5 tokens (named / ?named / empty; occasional duplicate name, adjacent tokens, unclosed token, trailing junk, pattern soup) with literals of length 0..4 over {a,b,A,e-acute(2 bytes),%,space} (+ rare ; B E-acute { } ? Z [ @ z), 40% ASCII-only without '%', 20% ASCII with '%'; " +
 			"1..6 lines per pattern, each built from the pattern (fillers containing a partial/complete/next delimiter or the prefix, case-flipped literals, one delimiter or the prefix omitted, junk before/after) or arbitrary bytes / alphabet soup / empty; mode in {case-sensitive, ignore-case, both}; " +
-			"2 (quick) / 12 (thorough) sequences of >= 3000 lines on one instance with every result re-read after the last call. " +
+			"2 (quick) / 12 (thorough) sequences of >= 3000 lines on one instance with every result re-read after the last call; " +
+			"10% SEQUENCE cases: one compiled pattern, one instance, 8..60 lines with history (fresh / exact repeat of the previous or an earlier line / proper prefix or suffix of the previous (shorter) / previous plus text or doubled (longer) / same length with one byte changed), every returned slice re-read after the last call, each result compared with the model of that line alone; " +
+			"8% CONCURRENT cases: one compiled pattern, matchers.ToFactory, 2..8 instances each with its own 2..12-line sequence: first used interleaved round-robin in one goroutine, then a fresh instance per goroutine (created inside it, released together) matching its lines for 1+1500/len rounds; per line the round-0 result is reported unless any round returned, or any held slice later re-read as, something else (then that value); every instance run is compared with the model of its own lines alone. " +
+			"Every FindSubmatchIndex / CreateInstance / CompileEx call runs under recover; a panicking call is recorded as result [-1] (never valid). " +
 			"distinct = distinct (mode, pattern, lines); non-trivial = a compile error, or a pattern with >= 1 token that matches at least one line and has >= 2 tokens, a skipped token, a prefix, or a literal occurring twice in a line.",
 		Gen: c12Gen,
 		Replay: func(d json.RawMessage) (Case, error) {
